@@ -182,6 +182,17 @@ fn fx_hash<T: Hash>(t: &T) -> u64 {
     h.finish()
 }
 
+/// is this pair value, obtained some other way than CardPair::new, the canonical value of its two cards?
+fn canon_fields(p: &CardPair) -> String {
+    let (x, y) = pair_ids(p);
+    let n = CardPair::new(card(x), card(y));
+    let m = CardPair::new(card(y), card(x));
+    format!(
+        "\"first\":{},\"second\":{},\"eq_new\":{},\"hash_eq\":{},\"fx_eq\":{}",
+        x, y, b2i(*p == n && *p == m), b2i(std_hash(p) == std_hash(&n)), b2i(fx_hash(p) == fx_hash(&n))
+    )
+}
+
 pub fn record_c14(_args: &Args, mut out: Out) -> usize {
     for a in 0..52usize {
         for b in 0..52usize {
@@ -214,6 +225,42 @@ pub fn record_c14(_args: &Args, mut out: Out) -> usize {
                 b2i(p == q && !(p != q)), b2i(std_hash(&p) == std_hash(&q)), b2i(fx_hash(&p) == fx_hash(&q)),
                 b2i(p == other || q == other), r.card_pairs().len(), codes(&text), parsed, parsed_rev
             ));
+            // parsing is a function of the text alone: the suit-swapped twin right after, then the original again
+            if a / 4 != b / 4 && a % 4 != b % 4 {
+                let twin = format!("{}{}", card(4 * (a / 4) + b % 4), card(4 * (b / 4) + a % 4));
+                let t1 = format!("{}{}", card(a), card(b));
+                let seq = [parse(t1.clone()), parse(twin.clone()), parse(t1)];
+                out.line(&format!(
+                    "{{\"op\":\"twin\",\"a\":{},\"b\":{},\"ta\":{},\"tb\":{},\"first\":{},\"then_twin\":{},\"again\":{}}}",
+                    a, b, 4 * (a / 4) + b % 4, 4 * (b / 4) + a % 4, seq[0], seq[1], seq[2]
+                ));
+            }
+        }
+    }
+    // pair values that reach the user by other routes than CardPair::new / parse: the combos of every rank pair
+    // (both rank orders), expanded directly and through a parsed token and a parsed range
+    use espada::hand_range::{HandRangeToken, RankPair};
+    for h in 0..13usize {
+        for k in 0..13usize {
+            let mut routes: Vec<(String, Vec<CardPair>)> = vec![];
+            if h == k {
+                routes.push(("pocket".into(), guarded(move || RankPair::Pocket(RANKS[h]).into_iter().collect()).unwrap_or_default()));
+            } else {
+                routes.push(("suited".into(), guarded(move || RankPair::Suited(RANKS[h], RANKS[k]).into_iter().collect()).unwrap_or_default()));
+                routes.push(("ofsuit".into(), guarded(move || RankPair::Ofsuit(RANKS[h], RANKS[k]).into_iter().collect()).unwrap_or_default()));
+                for so in ['s', 'o'] {
+                    let text = format!("{}{}{}", RANK_CH[h], RANK_CH[k], so);
+                    let t2 = text.clone();
+                    routes.push((format!("token {}", text), guarded(move || t2.parse::<HandRangeToken>().map(|t| t.into_iter().map(|x| x.0).collect()).unwrap_or_default()).unwrap_or_default()));
+                    let t3 = text.clone();
+                    routes.push((format!("range {}", text), guarded(move || t3.parse::<HandRange>().map(|r| r.card_pairs().keys().cloned().collect()).unwrap_or_default()).unwrap_or_default()));
+                }
+            }
+            for (route, pairs) in routes {
+                for p in pairs {
+                    out.line(&format!("{{\"op\":\"route\",\"route\":{},\"h\":{},\"k\":{},{}}}", jstr(&route), h, k, canon_fields(&p)));
+                }
+            }
         }
     }
     out.finish()
